@@ -107,12 +107,12 @@ class ParCons(RankAggAlgorithm, PairwiseBasedAlgorithm):
                 if len(scc_i) > self._bound_for_exact:
                     cons_ext = self._auxiliary_alg.compute_consensus_rankings(
                         sub_problem, scoring_scheme, True).consensus_rankings[0]
-                    res.extend(cons_ext)
+                    res.extend(ParCons._with_elements_of(cons_ext, set_current_elements))
                     optimal = False
                 else:
                     cons_ext = ParCons._exact_algorithm().compute_consensus_rankings(
                         sub_problem, scoring_scheme, True).consensus_rankings[0]
-                    res.extend(cons_ext)
+                    res.extend(ParCons._with_elements_of(cons_ext, set_current_elements))
 
         hash_information = {
             ConsensusFeature.ASSOCIATED_ALGORITHM: self.get_full_name(),
@@ -123,6 +123,17 @@ class ParCons(RankAggAlgorithm, PairwiseBasedAlgorithm):
                          dataset=dataset,
                          scoring_scheme=scoring_scheme,
                          att=hash_information)
+
+    @staticmethod
+    def _with_elements_of(ranking: Ranking, elements: Set[Element]) -> List[Set[Element]]:
+        """
+        :param ranking: a consensus ranking of a sub-problem
+        :param elements: the elements of the initial dataset defining the sub-problem
+        :return: the buckets of the ranking, expressed with the elements of the initial dataset. The elements of a
+        sub-problem may have another type (a Dataset whose elements can all be int has int elements)
+        """
+        elements_by_name = {str(element): element for element in elements}
+        return [{elements_by_name[str(element)] for element in bucket} for bucket in ranking]
 
     @staticmethod
     def _exact_algorithm() -> RankAggAlgorithm:
